@@ -278,7 +278,7 @@ fn eighths(x: f64) -> Option<f32> {
     }
 }
 
-pub fn generate(rng: &mut Rng, property: &str) -> Scn {
+pub fn generate(rng: &mut Rng, property: &str, deep: bool) -> Scn {
     let extreme = property == "C20";
     // One run in eight is a fault-free configuration (plain jittered frames + user events), so
     // that relaxed comparisons never hide an ordinary bug.
@@ -288,7 +288,11 @@ pub fn generate(rng: &mut Rng, property: &str) -> Scn {
         knobs.grid = true;
     }
     let spec = gen_anim_spec(rng, &knobs);
-    let tk = gen_trace_knobs(rng, &knobs, extreme, fault_free);
+    let mut tk = gen_trace_knobs(rng, &knobs, extreme, fault_free);
+    // thorough tier: a third of the runs use long histories (deeper bounds)
+    if deep && rng.chance(0.33) {
+        tk.n_ops = rng.range(48, 200) as usize;
+    }
     let mut book = Book {
         cur: spec.initial_state as usize,
         prev: spec.initial_state as usize,
